@@ -96,7 +96,7 @@ CLAIMED = {
          "Trusted: as C02. Known findings: RESERVED values and LOOKUP raw values are masked without a range check.",
          "DESIGN.md §5 C09"),
  "C03": ("Coq proof (structural induction on 6/7-byte chunking; refinement of the reassembly step to a set-based reference) of a hand model + kernel-evaluated correspondence incl. a complete sweep of 224 lengths x 8 counters",
-         "C03_encode/shape/inverse/inverse_interleaved/sequence hold for every payload of 0..223 bytes, every counter, every byte content, every prior decoder state with another counter, any list of messages (counter wrap-around); FastPacket.v tied to _encode_fast_message / _decode_fast_message / _decode by vm_compute cases",
+         "C03_encode/shape/frames/inverse/inverse_interleaved/sequence hold for every payload of 0..223 bytes, every counter, every byte content, every prior decoder state with another counter, any list of messages (counter wrap-around); FastPacket.v tied to _encode_fast_message / _decode_fast_message / _decode by vm_compute cases",
          "Trusted: Coq kernel + vm_compute; hand model FastPacket.v (wire byte order), tied by the complete 224x8 encoder sweep, random cases and decode_tcp histories; Python int/bytes = Z / list Z. Theorems closed under the global context.",
          "DESIGN.md §5 C03"),
  "C04": ("Coq proof: invariant (frame store = filter seen (message frames)), refinement of fp_step to a set-based reference, frame lemma and projection theorem for unbounded histories and streams; kernel-evaluated history correspondence",
